@@ -125,6 +125,47 @@ func configs() []*config {
 	return l
 }
 
+// concScenarios: the Engine A part. Thread i runs its script on file slot i;
+// all threads share one pool.
+func concScenarios() []*mc.Scenario {
+	N := func(size int) cop { return cop{opNew, size, 0} }
+	W := func(off, n int) cop { return cop{opWrite, off, n} }
+	T := func(size int) cop { return cop{opTrunc, size, 0} }
+	C := cop{kind: opClose}
+	quota := func(name string, maxFiles, maxBytes int, preopen []int, faults bool) *config {
+		return &config{name: name, stack: "quotaconc", maxFiles: maxFiles, maxBytes: maxBytes, preopen: preopen, baseFaults: faults}
+	}
+	block := func(name, stack string, ss, capS, maxFiles, maxBytes int, preopen []int) *config {
+		return &config{name: name, stack: stack, ss: ss, capS: capS, maxFiles: maxFiles, maxBytes: maxBytes, preopen: preopen}
+	}
+	return []*mc.Scenario{
+		// (a) the real quota layer over the counting base pool.
+		// One file slot: two creations collide, a close races with a creation.
+		concScenario(quota("conc-quota-1file-4bytes", 1, 4, nil, false),
+			[][]cop{{N(2), C, N(0)}, {N(3), C}}, -1, -1),
+		// Two bytes left, two growing calls that want both of them; then
+		// shrinking / closing races with growing.
+		concScenario(quota("conc-quota-2files-4bytes-grow", 2, 4, []int{1, 1}, false),
+			[][]cop{{T(3), T(0)}, {W(1, 2), C}}, -1, -1),
+		concScenario(quota("conc-quota-2files-4bytes-mixed", 2, 4, nil, false),
+			[][]cop{{N(2), W(1, 3), C}, {N(2), T(4), T(1)}}, -1, -1),
+		// Three threads, two file slots: a creation that fails on bytes
+		// transiently occupies a file slot.
+		concScenario(quota("conc-quota-2files-4bytes-3threads", 2, 4, nil, false),
+			[][]cop{{N(1), C}, {N(4), C}, {N(0), T(3)}}, 3, -1),
+		// Base pool failures: roll-back races with allocation.
+		concScenario(quota("conc-quota-1file-4bytes-basefaults", 1, 4, []int{-1, 1}, true),
+			[][]cop{{N(2), C}, {T(3), C}}, -1, -1),
+		// (b) block device + real bitmap allocator.
+		concScenario(block("conc-block-ss2-cap4", "block", 2, 4, 0, 0, []int{0, 0}),
+			[][]cop{{W(0, 3), T(1), C}, {W(1, 2), W(4, 1), C}}, -1, -1),
+		concScenario(block("conc-block-ss2-cap3-exhaustion", "block", 2, 3, 0, 0, []int{0, 0}),
+			[][]cop{{W(0, 4), C}, {W(0, 4), T(2), W(2, 2)}}, -1, -1),
+		concScenario(block("conc-full-ss2-cap3-quota2x6", "full", 2, 3, 2, 6, []int{0, -1}),
+			[][]cop{{W(0, 3), T(1), C}, {N(2), W(1, 4), C}}, -1, -1),
+	}
+}
+
 func TestMC(t *testing.T) {
 	var seqs []*mc.Seq
 	for _, c := range configs() {
@@ -136,6 +177,6 @@ func TestMC(t *testing.T) {
 		allocSeq(70, []int{1, 3, 63, 64, 200}, map[string]int{"quick": 5, "thorough": 7}),
 		allocSeq(130, []int{1, 3, 63, 64, 200}, map[string]int{"quick": 5, "thorough": 7}),
 	)
-	mc.Main(t, nil, seqs)
+	mc.Main(t, concScenarios(), seqs)
 	printStats()
 }
